@@ -246,11 +246,40 @@ mod both {
         static mut Q_LEN: usize = 0;
         #[cfg(kani)]
         static mut U_LEN: usize = 0;
+        // the policy's (unbounded) channel of access batches: told apart from the insert buffer by
+        // the message size (asserted to differ in the harness that uses both)
+        #[cfg(kani)]
+        static mut B_PTR: [*mut u8; QMAX] = [std::ptr::null_mut(); QMAX];
+        #[cfg(kani)]
+        static mut B_LEN: usize = 0;
         pub fn reset() {
             #[cfg(kani)]
             unsafe {
                 Q_LEN = 0;
                 U_LEN = 0;
+                B_LEN = 0;
+            }
+        }
+        pub fn batch_size() -> usize {
+            std::mem::size_of::<crate::verif_env::KVec<u64>>()
+        }
+        /// number of access batches handed to the policy's channel (Kani only: natively the
+        /// receiving end is private to the policy's worker)
+        #[cfg(kani)]
+        pub fn batches() -> usize {
+            unsafe { B_LEN }
+        }
+        /// take the oldest access batch
+        #[cfg(kani)]
+        pub fn take_batch<T>() -> Option<T> {
+            unsafe {
+                if B_LEN == 0 {
+                    return None;
+                }
+                let p = B_PTR[0];
+                B_PTR[0] = B_PTR[1];
+                B_LEN -= 1;
+                Some(*Box::from_raw(p as *mut T))
             }
         }
         /// number of items in the insert buffer
@@ -286,6 +315,15 @@ mod both {
                 if std::mem::size_of::<T>() == 0 {
                     U_LEN += 1;
                     std::mem::forget(msg);
+                    return Ok(());
+                }
+                if std::mem::size_of::<T>() == batch_size() {
+                    // unbounded: never full (more than QMAX pending batches is outside the model)
+                    if B_LEN >= QMAX {
+                        kani::assume(false);
+                    }
+                    B_PTR[B_LEN] = Box::into_raw(Box::new(msg)) as *mut u8;
+                    B_LEN += 1;
                     return Ok(());
                 }
                 if Q_LEN >= QMAX {
@@ -663,4 +701,65 @@ mod both {
     // counted - was attempted: behind `try_send == Full` the future calls event-listener's
     // `listen()`; CBMC's symbolic execution of that did not finish in 25 min. The default arm of the
     // async insert path is therefore not decided.)
+
+    #[cfg(kani)]
+    async_harness! {
+        [kani::unwind(6),
+         kani::stub(async_channel::Sender::try_send, achan::try_send),
+         kani::stub(futures_util::async_await::shuffle, shuffle_one)]
+        fn c19_async_get_records() {
+            // buffer_items = 1: every async lookup, hit or miss, hands its index hash to the policy at
+            // once (AsyncRingStripe::push -> AsyncLFUPolicy::push -> select!{send, default} on the
+            // policy's unbounded channel): exactly one batch [k], counted as kept, never as dropped
+            vassert!(std::mem::size_of::<Item<u64>>() != achan::batch_size(), "the FIFO contract tells the two channels apart by message size");
+            let now = clock::set_nd(1000, th::SECS_MAX);
+            let mut a = if nd::any_bool() { Some(any_ent(now, 0, 4)) } else { None };
+            if let Some(x) = a.as_mut() {
+                x.conflict = 0;
+            }
+            let store = store_from(a, None, None, NdValidator::new(Some(true)));
+            let mut ents: [Option<(u64, i64)>; 3] = [None, None, None];
+            if let Some(x) = a {
+                ents[0] = Some((x.key, nd::any_i64_in(0, COST_MAX)));
+            }
+            let (cache, p) = park_async_cache(store, ents, nd::any_bool(), true, 1);
+            let closed = nd::any_bool();
+            cache.is_closed.store(closed, Ordering::SeqCst);
+            let k = nd::any_u64();
+            let resident = raw(&p.store, k).is_some();
+            let mutable = nd::any_bool();
+            let (polled, hit) = if mutable {
+                match poll_once(cache.get_mut(&k)) {
+                    Some(r) => (true, r.is_some()),
+                    None => (false, false),
+                }
+            } else {
+                match poll_once(cache.get(&k)) {
+                    Some(r) => (true, r.is_some()),
+                    None => (false, false),
+                }
+            };
+            vassert!(polled, "a lookup completes without suspending (the policy's channel is unbounded)");
+            if closed {
+                vassert!(!hit && achan::batches() == 0, "a lookup on a closed cache returns nothing and records nothing");
+            } else {
+                vassert!(hit == resident, "a lookup hits iff the key is resident (no TTL here)");
+                vassert!(achan::batches() == 1, "every lookup on an open cache, hit or miss, is handed to the policy as one batch");
+                match achan::take_batch::<crate::verif_env::KVec<u64>>() {
+                    Some(b) => {
+                        vassert!(b.len() == 1 && b[0] == k, "the batch holds exactly the looked-up key's index hash");
+                        std::mem::forget(b);
+                    }
+                    None => vassert!(false, "a batch was queued"),
+                }
+                vassert!(mrec::get(&p.metrics, MetricType::KeepGets) == 1 && mrec::get(&p.metrics, MetricType::DropGets) == 0, "a handed-over lookup is counted as kept exactly once, never as dropped");
+            }
+            vassert!(achan::len(&cache.insert_buf_tx) == 0, "a lookup queues nothing on the insert buffer");
+            vcover!(!closed && hit && mutable, "get_mut hit recorded");
+            vcover!(!closed && !hit && !mutable, "get miss recorded");
+            vcover!(closed, "closed");
+            std::mem::forget(cache);
+            std::mem::forget(p);
+        }
+    }
 }
